@@ -913,6 +913,15 @@ def call_builtin(self, name, pos, kw, node, fr):
             s = as_seq(pos[0])
             if s is not None:
                 return s[2]
+            # a Frame's axes have the frame's dimensions: len(x.ts) == x.tchans, len(x.fs) == x.fchans
+            la_ = pos[0].single_atom()
+            if la_ is not None and la_.kind == 'attr' and la_.args[1] in ('ts', 'fs'):
+                ci_ = self.class_of(la_.args[0])
+                if ci_ is None and self.frames and self.frames[0].self_term is not None and \
+                        self.frames[0].self_term.key == la_.args[0].key:
+                    ci_ = self.frames[0].self_cls
+                if ci_ is not None and any(c.name == 'Frame' for c in ci_.mro()):
+                    return self.get_attr(la_.args[0], 'tchans' if la_.args[1] == 'ts' else 'fchans', fr)
             def length(v, d=0):
                 va = v.single_atom()
                 if va is not None and va.kind == 'ite' and d < 4:
